@@ -20,6 +20,19 @@ from vf import util
 from vf import findings as F
 
 NPROC = min(16, os.cpu_count() or 4)
+_builtin_print = print
+
+
+def print(*a, **k):  # noqa: A001 - a reader that closes the pipe early must not change the exit status
+    try:
+        _builtin_print(*a, **k)
+        sys.stdout.flush()
+    except BrokenPipeError:
+        try:
+            os.dup2(os.open(os.devnull, os.O_WRONLY), sys.stdout.fileno())
+        except OSError:
+            pass
+
 EVID_DIR = os.environ.get("VERIF_EVIDENCE_DIR") or os.path.join(util.VERIF, "evidence")
 REPLAY_DIR = os.environ.get("VERIF_REPLAY_DIR") or os.path.join(util.VERIF, "replays")
 
